@@ -51,7 +51,10 @@ StepObsOK(o) ==
 (* real sockets: the client's view *)
 FreeObsOK(o) ==
   /\ o.count = count
-  /\ o.maxseen <= maxc
+  \* ConnCount as read by the handlers and by a free-running sampler while connections are
+  \* accepted and sessions end: within 0 .. max at every instant (max <= 0 admits nothing)
+  /\ o.maxseen <= (IF maxc > 0 THEN maxc ELSE 0)
+  /\ o.minseen >= 0
   /\ (\A i \in 1..Len(o.ss) : Ended(ss[i]) \/ ss[i].st # "run") => o.g = 0
   /\ \A i \in 1..Len(o.ss) : LET c == ss[i]  x == o.ss[i] IN
        /\ x.st = c.st
